@@ -46,7 +46,7 @@ pub fn diff_results(a: &SearchResult, b: &SearchResult) -> Option<String> {
   if a.next_cursor.is_some() != b.next_cursor.is_some() || (bits_equal && a.next_cursor != b.next_cursor) {
     return Some(format!("next_cursor {:?} vs {:?}", a.next_cursor, b.next_cursor));
   }
-  if canon_aggs(a) != canon_aggs(b) {
+  if !value_close(&canon_aggs(a), &canon_aggs(b)) {
     return Some(format!("aggregations/suggest {} vs {}", canon_aggs(a), canon_aggs(b)));
   }
   None
